@@ -189,7 +189,7 @@ type c07Op struct {
 }
 
 func runC07(run *common.Run) {
-	run.Rule = "case = one history of 3-6 HTTP client goroutines x 5-8 operations on 2 object names of one bucket (memory store and file store): unconditional uploads with unique content, uploads conditioned on non-existence or on a generation the client learned earlier, metageneration-conditioned patches each merging a unique value under the patching client's own metadata key (a patch must keep the other keys), conditioned deletes, compose into and copy onto the contended name from per-operation static sources, self-append composes (the contended object is its own first source, optionally conditioned on its generation as a source) (copy sources in the same or in a second bucket), metadata GETs and media GETs; recorded at the HTTP client boundary with a logical clock, with bounded holds at the handlers' check-then-act yield points (*.afterCheck, copy.locked) and between the file store's two writes (fs.add.*). Oracle: porcupine per object against a sequential object model in which a generation is identified by the unique write that created it; plus monitors: one generation number never shows two contents and one write never shows two generations; among writers conditioned on the same state at most one succeeds (follows from the model, counted). Part 'fresh': six clients upload six different objects (conditioned on non-existence) into a bucket that does not exist yet while a seventh creates it; every acknowledged upload must afterwards be served with the generation it was told. Non-trivial = history with at least two overlapping operations on one object and at least one conditioned write that lost; distinct by history."
+	run.Rule = "case = one history of 3-6 HTTP client goroutines x 5-8 operations on 2 object names of one bucket (memory store and file store): unconditional uploads with unique content, uploads conditioned on non-existence or on a generation the client learned earlier, metageneration-conditioned patches each merging a unique value under the patching client's own metadata key (a patch must keep the other keys), conditioned deletes, compose into and copy onto the contended name from per-operation static sources, self-append composes (the contended object is its own first source, optionally conditioned on its generation as a source) (copy sources in the same or in a second bucket), metadata GETs and media GETs; recorded at the HTTP client boundary with a logical clock, with bounded holds at the handlers' check-then-act yield points (*.afterCheck, copy.locked) and between the file store's two writes (fs.add.*). Oracle: porcupine per object against a sequential object model in which a generation is identified by the unique write that created it; plus monitors: one generation number never shows two contents and one write never shows two generations; among writers conditioned on the same state at most one succeeds (follows from the model, counted). Part 'fresh': six clients upload six different objects (conditioned on non-existence) into a bucket that does not exist yet while a seventh creates it; every acknowledged upload must afterwards be served with the generation it was told. Non-trivial = history with at least two overlapping operations on one object and at least one conditioned write that lost; distinct by history. Two PATCH requests in three send back the WHOLE resource the client last received for the object (metadata GET, upload or PATCH response - possibly stale, possibly of an earlier incarnation) with only its own metadata key set: the output-only members (generation, metageneration, ...) of the body must not matter, the model says metageneration = stored + 1; every fourth history is metadata-heavy (about a third of its operations patches, a quarter metadata reads)."
 	run.Assumptions = []string{"porcupine v1.3.0", "an upload's own JSON response is used only to learn the generation when it reports the uploader's own MD5 (the handler reads it back after releasing the object lock)", "holds are bounded sleeps, never a verdict"}
 	var hits sync.Map
 	var holds, seq int64
@@ -396,7 +396,10 @@ func c07History(run *common.Run, idx int, store string) {
 		in   c07In
 		srcs []string // compose/copy sources
 		srcB string   // bucket of the copy source (the contended bucket or a second one)
+		full bool     // PATCH: send back the whole resource this client last read for the object (read-modify-write), own tag set
 	}
+	// every fourth history is metadata-heavy: about a third of its operations are patches, a quarter metadata reads
+	metaHeavy := idx%4 == 3
 	scripts := make([][]scripted, nclients)
 	nstatic := 0
 	for c := range scripts {
@@ -405,7 +408,11 @@ func c07History(run *common.Run, idx int, store string) {
 			obj := r.Intn(2)
 			id := fmt.Sprintf("w%d.%d", c, k)
 			var sc scripted
-			switch x := r.Intn(20); {
+			x := r.Intn(20)
+			if metaHeavy && r.Bool() {
+				x = common.Pick(r, []int{11, 11, 11, 14, 14})
+			}
+			switch {
 			case x < 5:
 				sc = scripted{obj: obj, in: c07In{Kind: "WRITE", Id: id, Via: "upload", Cond: common.Pick(r, []string{"", "", "absent", "gen", "gen"})}}
 				register(id, "content of "+id+"|")
@@ -431,6 +438,7 @@ func c07History(run *common.Run, idx int, store string) {
 				sc = scripted{obj: obj, in: c07In{Kind: "APPEND", Id: id, Cond: common.Pick(r, []string{"", "gen", "gen"})}, srcs: []string{a}}
 			case x < 12:
 				sc = scripted{obj: obj, in: c07In{Kind: "PATCH", Id: "tag-" + id, Via: fmt.Sprintf("k%d", c%3), Cond: common.Pick(r, []string{"", "gen"}), CondM: int64(r.Intn(2))}} // CondM 1 = use the last metageneration learned; Via = the metadata key this client writes
+				sc.full = r.Chance(2, 3)
 			case x < 14:
 				sc = scripted{obj: obj, in: c07In{Kind: "DELETE", Cond: common.Pick(r, []string{"", "gen", "gen"})}}
 			case x < 17:
@@ -501,6 +509,9 @@ func c07History(run *common.Run, idx int, store string) {
 				meta int64
 			}
 			var kn [2]known
+			// the resource this client last got from a metadata GET of each object (possibly stale, possibly of an earlier
+			// incarnation): a read-modify-write client sends it back whole in its PATCH
+			var lastRes [2]map[string]any
 			for _, sc := range scripts[c] {
 				in := sc.in
 				name := names[sc.obj]
@@ -536,6 +547,7 @@ func c07History(run *common.Run, idx int, store string) {
 							mg, _ := drive.Int64Field(m, "metageneration")
 							learn(g, in.Id)
 							kn[sc.obj] = known{g, in.Id, mg}
+							lastRes[sc.obj] = m
 						}
 					}
 				case in.Kind == "WRITE" && in.Via == "compose":
@@ -558,15 +570,29 @@ func c07History(run *common.Run, idx int, store string) {
 					out.Class = c07Class(rsp)
 					run.Count("self_append_composes", 1)
 				case in.Kind == "PATCH":
-					body, _ := json.Marshal(map[string]any{"metadata": map[string]string{in.Via: in.Id}})
+					doc := map[string]any{}
+					var sentMeta int64
+					if sc.full && lastRes[sc.obj] != nil {
+						// the whole resource as read earlier; its output-only members (generation, metageneration, size, md5Hash,
+						// links, timestamps) are not the client's to set: the object model says metageneration = stored one + 1
+						doc = cloneResource(lastRes[sc.obj])
+						sentMeta, _ = drive.Int64Field(doc, "metageneration")
+						run.Count("patches_sending_back_a_full_resource", 1)
+					}
+					doc["metadata"] = map[string]string{in.Via: in.Id}
+					body, _ := json.Marshal(doc)
 					rsp := cl.Patch(B, name, body, q)
 					out.Class = c07Class(rsp)
 					if rsp.OK() {
 						if m, err := rsp.JSON(); err == nil {
+							lastRes[sc.obj] = m
 							// the handler reads the metadata back after releasing the lock: only trust it if it still shows this tag
 							if md, _ := m["metadata"].(map[string]any); md != nil && md[in.Via] == in.Id {
 								out.Meta, _ = drive.Int64Field(m, "metageneration")
 								kn[sc.obj].meta = out.Meta
+								if sentMeta != 0 && out.Meta != sentMeta+1 {
+									run.Count("full_resource_patches_whose_body_carried_a_stale_metageneration", 1)
+								}
 							} else {
 								out.Meta = -1 // decided below: unknown
 							}
@@ -603,6 +629,7 @@ func c07History(run *common.Run, idx int, store string) {
 							}
 							out.Tag = c07CanonMeta(mm)
 						}
+						lastRes[sc.obj] = m
 						g, _ := drive.Int64Field(m, "generation")
 						if out.W != "?" {
 							learn(g, out.W)
